@@ -318,6 +318,12 @@ func ContentEncrypt(enc string, cek, iv, p, a []byte) (e, t []byte, err error) {
 func CEKLen(enc string) int {
 	return map[string]int{"A128CBC-HS256": 32, "A192CBC-HS384": 48, "A256CBC-HS512": 64, "A128GCM": 16, "A192GCM": 24, "A256GCM": 32}[enc]
 }
+
+// TagLen is T_LEN (RFC 7518 5.2.3 - 5.2.5; 128 bits for GCM, 5.3).
+func TagLen(enc string) int {
+	return map[string]int{"A128CBC-HS256": 16, "A192CBC-HS384": 24, "A256CBC-HS512": 32, "A128GCM": 16, "A192GCM": 16, "A256GCM": 16}[enc]
+}
+
 func IVLen(enc string) int {
 	if len(enc) > 4 && enc[4:7] == "GCM" {
 		return 12
